@@ -114,6 +114,8 @@ def core_digest(core):
                 # the stored volume is a lazily refreshed cache: observe it through the public getter
                 st.pop("p.volume")
                 st["volume"] = float(x.getVolume())
+            elif hasattr(x, "getVolume") and len(x):
+                st["volume"] = float(x.getVolume())  # blocks and assemblies: through the public getter
             objs[id(x)] = st
         out["asm"][id(a)] = {"loc": ij, "name": a.getName(), "objs": objs}
     out["lookups"] = {
@@ -194,6 +196,7 @@ class Runner:
         self.had_edge_before_convert = False
         self.applied = []
         self.reusable = None
+        self.last_changer = None
         self.assigned = set()
         self.list_built_with = None
         self.edge_op_since_edit = False
@@ -280,8 +283,20 @@ class Runner:
             return True
         if op == "restore":
             if self.changer is None:
+                # nothing to undo: restoring again with the changer of the last conversion (or with
+                # one that never converted anything) must leave the core as it is
+                ch = self.last_changer or gc.ThirdCoreHexToFullCoreChanger(self.cs)
+                if self.edge is not None:
+                    return False
+                was = core_digest(core)
+                ch.restorePreviousGeometry(self.r)
+                for field, a, b in diff_digest(was, core_digest(core)):
+                    self.fail("C13.restore", f"step {k}: restorePreviousGeometry with no conversion pending changed the core in {field}: before {str(a)[:160]} | after {str(b)[:160]}", field="idle-" + (field if not field.startswith("p.") else "param"), hadEdgeAssemblies=False)
+                    break
+                self.probe("restore_with_nothing_pending")
                 return False
             self.changer.restorePreviousGeometry(self.r)
+            self.last_changer = self.changer
             self.changer = None
             now = core_digest(core)
             for field, a, b in diff_digest(self.before_convert, now):
@@ -305,6 +320,10 @@ class Runner:
             e = gc.EdgeAssemblyChanger()
             e.addEdgeAssemblies(core)
             self.edge = e
+            # somebody looks at the model while the edge assemblies are there (areas and volumes
+            # are cached); what the totals are in that state is C02's subject, not this property's
+            totals(core)
+            core_digest(core)
             self.edge_op_since_edit = True
             added = len(core) - n0
             nonc = [a for a in lower if tuple(int(x) for x in a.spatialLocator.indices[:2]) != (0, 0)]
